@@ -2,7 +2,7 @@
    Tags [FULL]/[PARTIAL]/[REFUTED] are read by bin/check. *)
 From Coq Require Import List NArith ZArith Arith Bool.
 From BLB Require Import Lib.GF256 Lib.GF256Laws Lib.RS Lib.RSLinAlg Lib.RSMds Lib.RSProofs C13.Model
-     C13.ProofsPack C13.ProofsRead C13.ProofsRecon C13.ProofsIndexMap C13.ProofsBlob.
+     C13.ProofsPack C13.ProofsRead C13.ProofsRecon C13.ProofsIndexMap C13.ProofsBlob C13.ProofsState C13.ProofsDegraded.
 Import ListNotations.
 Open Scope nat_scope.
 
@@ -264,3 +264,75 @@ Theorem rs_readat_equals_replicated_fixed :
     read_at true s true [] [] blob off len = read_at true s false [] [] blob off len.
 Proof. exact read_at_fixed_eq_lemma. Qed.
 Print Assumptions rs_readat_equals_replicated_fixed.
+
+(* [FULL] arrival-order independence: for every configured class and every stripe contents, client-style reconstruction
+   (ReconstructData) from ANY n of the n+m pieces, given as a duplicate-free list in any order, succeeds and yields the
+   same data shards, namely the original ones. Corollary of rs_mds through rs_reconstruct_exact *)
+Theorem rs_any_subset_same_data :
+  forall n m, In (n, m) rs_classes ->
+  forall len d used1 used2,
+    wf_data n len d ->
+    NoDup used1 -> length used1 = n -> (forall i, In i used1 -> i < n + m) ->
+    NoDup used2 -> length used2 = n -> (forall i, In i used2 -> i < n + m) ->
+    let E := encode_shards n m d in
+    exists r1 r2,
+      rs_reconstruct_data n (n + m) (class_matrix n m) (keep E (n + m) used1) = inr r1 /\
+      rs_reconstruct_data n (n + m) (class_matrix n m) (keep E (n + m) used2) = inr r2 /\
+      firstn n r1 = d /\ firstn n r2 = d.
+Proof. exact rs_any_subset_same_data_lemma. Qed.
+Print Assumptions rs_any_subset_same_data.
+
+(* [FULL] wf_read is an invariant of the model states built by the wire ops 10 (packTracts), 11 (packChunks stripes) and
+   15 (committed hosts): the predicate built holds of the state op 10 builds, is preserved by ops 10, 11 and 15, and in
+   a built state whose tracts fit the target every tract located by find_in_stripes satisfies wf_read, in particular
+   its extent has the length of the tract and lies in a layout accepted by checkTractSpec *)
+Theorem wf_read_invariant :
+  (forall n m tg sl trs, is_class n m = true -> built (st_pack n m tg sl trs)) /\
+  (forall s op, built s ->
+     (exists r, op = 10%Z :: r) \/ (exists r, op = 11%Z :: r) \/ (exists r, op = 15%Z :: r) ->
+     built (fst (step s op))) /\
+  (forall s t k j e,
+     built s ->
+     Forall (fun tr => (padded (t_len tr) <= s_target s)%N) (s_tracts s) ->
+     find_in_stripes t (s_stripes s) 0 = Some (k, j, e) ->
+     length (nth k (s_hosts s) []) = s_n s + s_m s ->
+     wf_read s k j e (nth t (s_tracts s) dummy_tract)).
+Proof. split; [exact built_pack | split; [exact built_preserved_by_ops | exact built_wf_read]]. Qed.
+Print Assumptions wf_read_invariant.
+
+(* [FULL] rs_readat_equals_replicated_degraded, current code: for every blob, offset and length, including ranges over
+   several tracts, holes and the end of the blob, while in every stripe holding a tract of the blob at most m of the
+   n+m piece holders are unavailable, whether their reads fail with an error or reported corruption or the curator
+   has no address for them, and whichever pieces those are including the direct one, Blob.ReadAt through the
+   erasure-coded locations returns exactly the count, error class and bytes of reading the replicated blob *)
+Theorem rs_readat_equals_replicated_degraded :
+  forall s blob off len blank fail,
+    blob_degraded_ok s blank fail blob ->
+    read_at true s true blank fail blob off len = read_at true s false [] [] blob off len.
+Proof. exact read_at_degraded_eq_lemma. Qed.
+Print Assumptions rs_readat_equals_replicated_degraded.
+
+(* [FULL] the same without the wf_read hypothesis, over the model states built by ops 10, 11 and 15: tracts fit the
+   target, every stripe has its n+m hosts recorded and at most m of them unavailable *)
+Theorem rs_readat_equals_replicated_degraded_built :
+  forall s blob off len blank fail,
+    built s ->
+    Forall (fun tr => (padded (t_len tr) <= s_target s)%N) (s_tracts s) ->
+    (forall k, k < length (s_stripes s) ->
+       length (nth k (s_hosts s) []) = s_n s + s_m s /\ down_count s k blank fail <= s_m s) ->
+    read_at true s true blank fail blob off len = read_at true s false [] [] blob off len.
+Proof. exact read_at_degraded_built_lemma. Qed.
+Print Assumptions rs_readat_equals_replicated_degraded_built.
+
+(* [FULL] fail closed through the multi-tract fold of readAt: if the result of some tract of the request carries the
+   error class, as client_reconstruct_fail_closed shows it does when more than m pieces of its stripe are
+   unavailable, and the tracts before it ended normally or at end of file, then the whole ReadAt reports the error
+   class and its byte count does not exceed what was requested from the tracts before the failing one *)
+Theorem readat_fail_closed :
+  forall pre r post pad acc,
+    Forall (fun x => (r_err x = 0 \/ r_err x = 1)%N /\ (r_read x <= r_wanted x)%N) pre ->
+    r_err r = 2%N ->
+    snd (fold_results (pre ++ r :: post) pad acc) = 2%N /\
+    (fst (fold_results (pre ++ r :: post) pad acc) <= acc + sum_wanted pre)%N.
+Proof. exact fold_results_fail_closed_lemma. Qed.
+Print Assumptions readat_fail_closed.
